@@ -428,6 +428,42 @@ impl<'a> VisitMut for Rw<'a> {
                     break;
                 }
             }
+            // R7 with argument metavariables: a key `recv.m(__1, __2)` / `f(__1)` matches any call with the same callee (and
+            // receiver) and arity; `__n` in the value is replaced by the n-th actual argument. Lets a contract see the arguments
+            // of a call whatever they are (a protocol precondition then decides whether they are the right ones).
+            if matches!(e, Expr::MethodCall(_) | Expr::Call(_)) {
+                for (k, v) in &self.maps.exprmap {
+                    if !k.contains("__1") {
+                        continue;
+                    }
+                    let Ok(kexpr) = parse_str::<Expr>(k) else { continue };
+                    let actuals: Option<Vec<String>> = match (&kexpr, &*e) {
+                        (Expr::MethodCall(km), Expr::MethodCall(em))
+                            if km.method == em.method && km.args.len() == em.args.len()
+                                && norm(&km.receiver.to_token_stream()) == norm(&em.receiver.to_token_stream()) =>
+                            Some(em.args.iter().map(|a| a.to_token_stream().to_string()).collect()),
+                        (Expr::Call(kc), Expr::Call(ec))
+                            if kc.args.len() == ec.args.len() && norm(&kc.func.to_token_stream()) == norm(&ec.func.to_token_stream()) =>
+                            Some(ec.args.iter().map(|a| a.to_token_stream().to_string()).collect()),
+                        _ => None,
+                    };
+                    if let Some(actuals) = actuals {
+                        let mut val = v.clone();
+                        for (i, a) in actuals.iter().enumerate().rev() {
+                            val = val.replace(&format!("__{}", i + 1), &format!("({a})"));
+                        }
+                        match parse_str::<Expr>(&val) {
+                            Ok(ne) => {
+                                self.used_expr.insert(k.clone());
+                                self.log.push(json!({"rule": "R7", "src_line": line, "before": norm(&e.to_token_stream()), "after": val}));
+                                *e = ne;
+                            }
+                            Err(er) => self.errors.push(format!("exprmap value `{val}` does not parse: {er}")),
+                        }
+                        break;
+                    }
+                }
+            }
         }
     }
 }
